@@ -13,14 +13,14 @@ LEVEL = 'exploration'
 TECHNIQUE = ('runtime monitoring: save/load round-trip oracle on the real functions (exact sparse equality, identity of untouched lines, expected error for a missing '
              'component), COO-triplet oracle for dense reconstruction, and an end-to-end differential (original layout vs layout rebuilt from PAGE XML + logits: '
              're-decode with the real PageDecoder and compare ALTO word lists)')
-RULE = ('pages with 0-8 lines; sparse matrices 1-60 x 2-40 with sparsity 0-99 % and no stored 0.0; charsets incl. multi-codepoint strings; frame windows present or '
+RULE = ('pages with 0-8 lines; sparse matrices 1-60 x 2-40 (float64 and float32, with fully pruned frames and frames far above the rest) with sparsity 0-99 % and no stored 0.0; charsets incl. multi-codepoint strings; frame windows present or '
         '[None, None]; file-path and bytes variants; files holding a subset / superset of the line ids; legacy files without line_characters / logit_coords; '
         'missing_line_logits_ok. non-trivial = page with >= 2 lines of different shapes; distinct = hash of the page description')
 ASSUMPTIONS = ['no stored logit is exactly 0.0 (0.0 is the sparse format\'s "pruned" marker)', 'line ids are unique within a page',
                'the end-to-end leg uses transcriptions with plain single spaces, geometry inside the page; both layouts go through the same decoder and exporter']
 N = {'quick': 500, 'thorough': 30000}
 CLASSES = ['roundtrip', 'roundtrip_bytes', 'subset', 'superset', 'legacy', 'missing_component', 'dense', 'rebuild', 'rebuild', 'empty_page']
-REQUIRED = ['roundtrip_lines', 'untouched_checked', 'missing_reported', 'dense_checked', 'rebuild_pages', 'rebuild_lines_decoded', 'rebuild_alto_compared', 'legacy_checked', 'reloads', 'parse_folder_rebuilds']
+REQUIRED = ['roundtrip_lines', 'untouched_checked', 'missing_reported', 'dense_checked', 'rebuild_pages', 'rebuild_lines_decoded', 'rebuild_alto_compared', 'legacy_checked', 'reloads', 'parse_folder_rebuilds', 'float32_lines']
 CHARSETS = [list('abcdefgh '), list('abc '), ['a', 'b', 'é', 'ạ̈', 'שׁ', '\U0001F600', ' '], [chr(0x61 + k) for k in range(26)] + [' ', '.', ',']]
 
 
@@ -47,9 +47,15 @@ def describe(case):
 
 
 def random_sparse(rng, T, C):
-    d = rng.normal(size=(T, C)) * 5
+    d = rng.normal(size=(T, C)) * float(rng.choice([5, 5, 12]))
     d[d == 0] = 0.5
     d[rng.random((T, C)) < float(rng.choice([0, 0.3, 0.7, 0.9, 0.99]))] = 0
+    if rng.random() < 0.3:
+        d[int(rng.integers(0, T))] = 0                     # a fully pruned frame: every entry at the floor
+    if rng.random() < 0.3:
+        d[int(rng.integers(0, T)), int(rng.integers(0, C))] = float(rng.uniform(20, 40))    # a very confident frame far above the others
+    if rng.random() < 0.5:
+        d = d.astype(np.float32)                           # what the OCR engine emits
     return sparse.csc_matrix(d)
 
 
@@ -228,11 +234,14 @@ def check_dense(b, mon, step='after load'):
                               'shapes': [list(d.shape), list(exp.shape)]})
                 break
         lp = lb.get_full_logprobs()
-        if lp.shape != lb.logits.shape or np.abs(np.logaddexp.reduce(lp, axis=1)).max() > 1e-9:
+        tol = 1e-9 if lp.dtype == np.float64 else 2e-4
+        if lp.dtype != np.float64:
+            mon.count('float32_lines')
+        if lp.shape != lb.logits.shape or not np.all(np.isfinite(lp)) or np.abs(np.logaddexp.reduce(lp.astype(np.float64), axis=1)).max() > tol:
             mon.violation('dense-rows-normalised', {'line': lb.id, 'step': step})
             continue
         dn = lb.get_dense_logits()
-        if np.abs((lp - dn) - (lp - dn)[:, :1]).max() > 1e-9:
+        if np.abs((lp.astype(np.float64) - dn) - (lp.astype(np.float64) - dn)[:, :1]).max() > tol * 10:
             mon.violation('dense-rows-normalised', {'line': lb.id, 'step': step, 'note': 'log-probabilities are not the dense logits minus a per-row constant'})
         # the caller may modify what it gets: a second call must not be affected
         dn[:] = 123.0
